@@ -17,8 +17,10 @@ from fractions import Fraction
 from harness import common
 
 PROP = 'C15'
-THEOREMS = ['C15_valid', 'C15_opt', 'C15_total', 'C15_mixed', 'C15_holds', 'C15_get_dtype_fits',
-            'C15_brute_opt_min', 'C15_brute_solve_optimal']
+THEOREMS = ['C15_total', 'C15_valid', 'C15_opt', 'C15_mixed', 'C15_holds', 'C15_get_dtype_fits',
+            'C15_brute_opt_min', 'C15_brute_solve_optimal', 'C15_domain_or_known', 'C15_all_missing_refuted',
+            'C15_negative_with_missing_refuted', 'C15_negative_needs_negative', 'C15_sentinel_overflow_refuted',
+            'C15_beyond_2p53_refuted', 'C15_all_missing_outcome', 'C15_negative_outcome']
 HEADER_SPEC = ('From Coq Require Import List Bool ZArith.\nRequire Import GT.PyBase GT.MatchSpec.\n'
                'Import ListNotations.\nOpen Scope Z_scope.\n')
 HEADER_MODEL = HEADER_SPEC + 'Require Import GTgen.MatchGen GT.MatchModel.\n'
@@ -117,17 +119,16 @@ SMALL_DOMAINS = [
 
 def gen_exhaustive(tier, rng):
     """All tables up to 3x3 over 3-value domains (incl. the missing pair).  thorough: complete;
-    quick: everything up to 6 cells, a seeded sample of the 3x3 tables."""
+    quick: everything up to 5 cells, 35% of the 6-cell tables, a seeded sample of 150 of the 3x3 tables per
+    domain; search (tie broken): everything up to 6 cells, 1500 of the 3x3 tables per domain."""
     out = []
     for name, dom in SMALL_DOMAINS:
-        vals = list(dict.fromkeys((type(v), v) for v in dom))     # 1 and True are different values
-        vals = [v for _, v in vals]
+        vals = [v for _, v in dict.fromkeys((type(v), v) for v in dom)]     # 1 and True are different values
         for r in range(1, 4):
             for c in range(1, 4):
                 n = r * c
-                space = len(vals) ** n
-                if tier == 'quick' and n > 6:
-                    picks = [tuple(rng.choice(vals) for _ in range(n)) for _ in range(150 if n == 9 else 0)]
+                if tier != 'thorough' and n == 9:
+                    picks = [tuple(rng.choice(vals) for _ in range(n)) for _ in range(150 if tier == 'quick' else 1500)]
                 elif tier == 'quick' and n == 6:
                     picks = [p for p in itertools.product(vals, repeat=n) if rng.random() < 0.35]
                 else:
@@ -135,7 +136,6 @@ def gen_exhaustive(tier, rng):
                 for p in picks:
                     t = [list(p[i * c:(i + 1) * c]) for i in range(r)]
                     out.append(mk(t, unit_for(t), f'exh-{name}-{r}x{c}'))
-                del space
     return out
 
 
@@ -145,8 +145,8 @@ def rand_table(rng, r, c, draw, p_missing):
 
 def gen_random(tier, rng):
     out = []
-    k = 500 if tier == 'quick' else 6000
-    mx = 5 if tier == 'quick' else 6
+    k = {'quick': 500, 'search': 2500}.get(tier, 6000)
+    mx = 6 if tier == 'thorough' else 5
     draws = [
         ('ties', lambda: rng.randint(0, 3)), ('small', lambda: rng.randint(0, 20)),
         ('medium', lambda: rng.randint(0, 1000)), ('signed', lambda: rng.randint(-20, 20)),
@@ -188,7 +188,7 @@ def gen_boundaries(tier, rng):
         out.append(mk([[v, N], [v, N]], 1, 'bound-2x2missing'))
         out.append(mk([[v, 1], [2, v]], 1, 'bound-2x2'))
         out.append(mk([[v, v - 1], [v - 1, v - 2]], 1, 'bound-2x2tie'))
-    k = 150 if tier == 'quick' else 2500
+    k = {'quick': 150, 'search': 1000}.get(tier, 2500)
     for i in range(k):
         r, c = rng.randint(1, 3), rng.randint(1, 3)
         base = rng.choice(pos + neg)
@@ -306,7 +306,25 @@ def open_findings():
     return out
 
 
+def open_term(classes):
+    """Gallina list of (class predicate, excused outcome) for the open findings."""
+    return '; '.join(f'({k}, ex_{k})' for k in classes)
+
+
 # ------------------------------------------------------------------ check
+
+def eval_batched(wd, name, header, terms, evals, batch=4000, chunk=250):
+    """common.coq_eval_cases numbers the cases with `nat` literals; beyond 5000 Coq abstracts them and
+    vm_compute / printing overflows the stack, so evaluate in batches and offset the indices here."""
+    bad = [[] for _ in evals]
+    for b0 in range(0, len(terms), batch):
+        part, err = common.coq_eval_cases(wd, f'{name}_b{b0 // batch}', header, terms[b0:b0 + batch], evals, chunk=chunk)
+        if err:
+            return bad, err
+        for k, idx in enumerate(part):
+            bad[k] += [b0 + i for i in idx]
+    return bad, None
+
 
 def run_cases(run, wd, name, cases, st, opens):
     """Returns (kept cases, results, bad_holds, bad_corr, {class: [indices reproducing it]})."""
@@ -329,13 +347,13 @@ def run_cases(run, wd, name, cases, st, opens):
             continue
         keep.append((c, r['ok']))
     classes = sorted({f['class'] for f in opens})
-    evals = ['bad_cases (holds_C15 [%s])' % '; '.join(classes)]
+    evals = ['bad_cases (holds_C15 [%s])' % open_term(classes)]
     evals += [f'bad_cases (fun c => negb (reproduces {k} c))' for k in classes]
     header = HEADER_SPEC
     if st['models_ok']:
         evals.append('bad_cases corr_C15')
         header = HEADER_MODEL
-    bad, err = common.coq_eval_cases(wd, name, header, terms, evals, chunk=250)
+    bad, err = eval_batched(wd, name, header, terms, evals)
     if err:
         run.violation({'kind': 'case-evaluation-failed', 'error': err}, no_input=True)
         return keep, [], [], {}
@@ -374,7 +392,7 @@ def check(tier, seed):
         if st['broken'] and not run.violations:
             # tie broken, no failing input among the cases: widen the search
             for s2 in range(2):
-                more = generate('thorough', random.Random(seed * 1000 + s2))
+                more = generate('search', random.Random(seed * 1000 + s2))
                 k2, bh, bc, rp2 = run_cases(run, wd, f'search{s2}', more, st, opens)
                 for i in bh[:3]:
                     run.violation(dict(describe(*k2[i]), kind='assignment-invalid-or-not-optimal'))
@@ -447,7 +465,7 @@ def replay(path):
             try:
                 classes = sorted({f['class'] for f in open_findings()})
                 b, err = common.coq_eval_cases(wd, 'replay', HEADER_SPEC, [case_term(case, r['ok'])],
-                                               ['bad_cases (holds_C15 [%s])' % '; '.join(classes),
+                                               ['bad_cases (holds_C15 [%s])' % open_term(classes),
                                                 'bad_cases (holds_C15 [])'])
                 bad = bool(err) or bool(b[0])
                 if not bad and b[1]:
